@@ -117,3 +117,40 @@ def reverse_reach(P, target):
                 seen.add(q)
                 st.append(q)
     return seen, rev
+
+
+def snippet_import_guard(P):
+    """shape of the conditional refusal in eval::check_snippet (fix 657a46c): under enforce_sandbox every import of
+    the snippet is tested with starts_with("__") and the function can return before check_toplevel_items.
+    Returns (ok, why)."""
+    f = P.funcs.get("eval::check_snippet")
+    if f is None:
+        return False, "eval::check_snippet not found"
+    gs = guards(f)
+    if len(gs) != 1:
+        return False, "expected one enforce_sandbox test in check_snippet, found %d" % len(gs)
+    sb, ft, tt = gs[0]
+    region = D.edge_dominated(f, sb, tt)
+    checks = [bi for bi, t in f.calls() if M.callee_name(t) == "checks::check_toplevel_items"]
+    if not checks or not all(f.dominates(sb, c) for c in checks):
+        return False, "the sandbox test does not come before check_toplevel_items"
+    sw_prefix = False
+    for sw in D.call_switches(f, "::starts_with", None):
+        if sw["bb"] in region:
+            c = None
+            for a in sw["call"]["args"][1:]:
+                r = f.root_of(a)
+                if r[0] == "const":
+                    c = r[1].get("s")
+            if c == "__":
+                sw_prefix = True
+    if not sw_prefix:
+        return False, "no starts_with(\"__\") test of the import path under the sandbox test"
+    rets = set(f.exits())
+    early = D.reach_from(f, [tt], avoid_blocks=checks) & rets
+    if not early:
+        return False, "no return before check_toplevel_items on the sandboxed edge"
+    imp = [sw for sw in D.enum_switches(f) if D.short_ty(sw["ety"]) == "ToplevelItem" and sw["bb"] in region]
+    if not imp:
+        return False, "the sandboxed edge does not inspect the snippet's items"
+    return True, "check_snippet: under enforce_sandbox each Import item is tested with starts_with(\"__\") and a refusal returns before check_toplevel_items"
